@@ -69,7 +69,7 @@ impl Check for IndexCheck {
         "C15"
     }
     fn budget(&self, tier: &str) -> usize {
-        if tier == "thorough" { 400_000 } else { 15_000 }
+        if tier == "thorough" { 600_000 } else { 15_000 }
     }
     fn gen_case(&self, seed: u64, _idx: usize, _tier: &str, avoid: &[String]) -> Case {
         let mut rng = Rng::new(seed, "workload");
